@@ -21,8 +21,8 @@ h) reads scan published segments only: the scan list must not contain in-flight 
    .idx), so a read sees half-written rows that carry real event ids and win the de-duplication against the intact copy in the passive buffer. The passive buffer is released only after publication
    (C03.c), so the in-flight merge adds nothing to completeness.
 """
-FLOOR = 13
-REQUIRED = ["C11.a", "C11.b", "C11.c", "C11.f", "C11.g", "C11.h", "C11.i", "C11/C01.g", "C11/C03.c", "C11/C05.b1", "C11/C05.b2", "C11/C05.d", "C11/C05.e"]
+FLOOR = 14
+REQUIRED = ["C11.a", "C11.b", "C11.c", "C11.f", "C11.g", "C11.h", "C11.i", "C11.j", "C11/C01.g", "C11/C03.c", "C11/C05.b1", "C11/C05.b2", "C11/C05.d", "C11/C05.e"]
 
 SEGMOD = re.compile(r"^(engine::core::(column|filter|read::catalog|time|zone|snapshot|write)::|shared::storage_header::)")
 WRITER_ROOTS = {"engine::core::write::flusher::Flusher::flush", "engine::core::compaction::multi_uid_compactor::MultiUidCompactor::run",
@@ -229,6 +229,27 @@ def run(ctx):
             bad.append(("recover-publishes-any-zones-dir", "recover_from_disk publishes every 5-digit directory that holds a *.zones file: a half-written flush directory and a retired, not yet deleted compaction input are published too", sp(ins[0][0], ins[0][1].bb)))
         return bad
     ctx.run("C11.i", "K10 READS", "SegmentIndex::recover_from_disk", "a rebuilt index publishes only directories that prove they were published", i_)
+
+    def j_(inst):
+        """`disappear whole`: a retired segment directory leaves its published name in ONE step (a rename into the reclaim area) and
+        is taken apart there. remove_dir_all on <shard>/<label> itself deletes file by file under the published name: at any instant
+        or crash point of the background reclaim the directory exists with part of its files, and a restart lists it as a segment."""
+        bad = []
+        h = F.fn("CompactionHandover::move_to_reclaim")
+        rms = [c for c in h.calls if not c.cleanup and c.nname.endswith("fs::remove_dir_all")]
+        rns = [c for c in h.calls if not c.cleanup and c.nname.endswith("fs::rename")]
+        if not rms:
+            raise AnchorMissing("fs::remove_dir_all in move_to_reclaim")
+        inst.sites = [sp(h, c.bb) for c in rns + rms]
+        staged = lambda c, a_: any(x.startswith(".") and "reclaim" in x for x in str_consts(h, a_, depth=6))
+        if not rns or not any(staged(c, c.args[1]) and not staged(c, c.args[0]) for c in rns):
+            bad.append(("retired-dir-not-renamed-away", "move_to_reclaim does not rename a retired segment directory out of its published name before deleting it", sp(h, rms[0].bb)))
+        for c in rms:
+            if not staged(c, c.args[0]):
+                bad.append(("retired-dir-deleted-in-place", "move_to_reclaim deletes a retired segment directory file by file under its published name <shard>/<label>: a crash (or a directory listing) during the background reclaim finds a half-deleted segment under a valid segment name", sp(h, c.bb)))
+                break
+        return bad
+    ctx.run("C11.j", "K7 PROV", "CompactionHandover::move_to_reclaim", "a retired segment leaves its published name in one rename", j_)
 
 
 def cmp_count(fam):
